@@ -20,7 +20,6 @@ Definition ren_obs (ren : list (var * var)) (o : obs) : obs :=
 Inductive gkind :=
 | GNormal                      (* base, variants with their own algebra, further observations of the base's algebra *)
 | GInit (pushed : list var)    (* [VALUES form; initBindings form]: only the VALUES form has a model *)
-| GDupPrefix                   (* [base; the same text with two prefixes for one namespace] (finding F-C15-2) *)
 | GNoModel.                    (* observations without a counterpart in the model (evaluations with initBindings):
                                   judged by the specification only *)
 
@@ -33,12 +32,9 @@ Definition vobs := list (list obs).
 
 Definition g_pushed (g : group) : list var :=
   match g_kind g with GInit p => p | _ => [] end.
-Definition dup_prefix_group (g : group) : bool :=
-  match g_kind g with GDupPrefix => true | _ => false end.
 
 Definition group_model (g : group) : list obs :=
   match g_kind g with
-  | GDupPrefix => [model_obs (g_base g); RErr]   (* Prologue.bind keeps one prefix per namespace: no parse *)
   | GInit _ => [model_obs (g_base g)]
   | GNoModel => []
   | GNormal =>
@@ -96,6 +92,4 @@ Definition kf_group (g : group) : bool :=
   (nonempty (g_pushed g) && init_vis (g_pushed g) (c_alg (g_base g))) ||
   negb (N.eqb (kf_case (g_pushed g) (g_base g)) 0)
   || existsb (fun cv => negb (N.eqb (kf_case (g_pushed g) (fst cv)) 0)) (g_vars g).
-Definition kf15 (c : vcase) : N :=
-  if existsb dup_prefix_group c then 2
-  else if existsb kf_group c then 1 else 0.
+Definition kf15 (c : vcase) : N := if existsb kf_group c then 1 else 0.
